@@ -158,9 +158,9 @@ func runIndex(o Opts, mode string) error {
 		cw.CaseType = "hcase"
 	}
 	cw.Extra = "Definition R := Eval vm_compute in rejects cases.\nPrint R.\n"
-	nScen := map[string]int{"c01": 60, "c04": 30, "c05": 40, "c06": 50}[mode]
+	nScen := map[string]int{"c01": 120, "c04": 60, "c05": 90, "c06": 110}[mode]
 	if o.Thorough() {
-		nScen *= 8
+		nScen *= 6
 	}
 	for s := 0; s < nScen; s++ {
 		wo := WorldOpts{Universe: 3 + rng.Intn(5)}
